@@ -139,6 +139,18 @@ func init() {
 				}
 				walk(fd.Body, "")
 				ast.Inspect(fd.Body, func(n ast.Node) bool {
+					// the ES2015 property shorthand `{a}`: written when the `name:` prefix is skipped because the value is a
+					// variable of the same name — record whether that condition consults the version
+					if ifs, ok := n.(*ast.IfStmt); ok {
+						ct := exprText(r.Fset, ifs.Cond)
+						if strings.Contains(ct, ".IsIdent(") {
+							g := "no-gate"
+							if i := strings.Index(ct, "minVersion("); i >= 0 {
+								g = ct[i : i+strings.Index(ct[i:], ")")+1]
+							}
+							producers = append(producers, fmt.Sprintf("%s: property shorthand (name: skipped when Name.IsIdent) gate %s", fn, g))
+						}
+					}
 					call, ok := n.(*ast.CallExpr)
 					if !ok {
 						return true
